@@ -11,7 +11,7 @@ from props.C15 import Machine
 REQUIRED_THEOREMS = ['Usid.C03.batches_partition', 'Usid.C03.batches_disjoint_ordered', 'Usid.C03.exactly_once',
                      'Usid.C03.final_state', 'Usid.C03.all_complete', 'Usid.C03.batch_irrelevant',
                      'Usid.C03.cores_irrelevant']
-RULE = ('[also: positional / keyword arguments handed through compute() to the map function, verbose=True, machines with 1 / 2 / 4 / 8 logical cores and negative or excessive core requests, multi-worker batches shorter than the pending list, a second compute() on the finished object; serial call order and the worker count observed] random (N, M, completion mask incl. N up to 1200 with < 0.5 % pending, batch limit, cores, lazy, same-file/separate target); real compute() of a '
+RULE = ('[also: prior groups in the LEGACY form - no status dataset, only the last_pixel attribute] [also: positional / keyword arguments handed through compute() to the map function, verbose=True, machines with 1 / 2 / 4 / 8 logical cores and negative or excessive core requests, multi-worker batches shorter than the pending list, a second compute() on the finished object; serial call order and the worker count observed] random (N, M, completion mask incl. N up to 1200 with < 0.5 % pending, batch limit, cores, lazy, same-file/separate target); real compute() of a '
         'Process subclass whose map function logs every call through an O_APPEND file; non-trivial = a pending '
         'position exists and (several batches or non-contiguous mask or multi-core)')
 TRUSTED = ['joblib worker scheduling is not modelled: "identical results in identical order" for cores > 1 rests on '
@@ -63,6 +63,10 @@ def generate(seed, tier):
             c['cores'] = rng.choice([None, 1, 2, -3, 32, c['logical']])
         if big:
             c['logical'] = 16
+        # what a run of an old version left behind: no status dataset, only the number of finished positions
+        rl = derived_rng(seed, 'C03l', i)
+        if kind == 'prefix' and not c['fresh'] and rl.random() < 0.6:
+            c['legacy'] = True
         if i % 12 == 2:      # real multi-worker batches that are SHORTER than the pending list
             n2 = rng.randint(170, 420)
             c.update(n=n2, mask=[0] * n2, batch=rng.randint(85, 130), cores=rng.choice([2, 4]), logical=16, fresh=True)
@@ -84,12 +88,14 @@ def run_impl(inp, work):
         g = f.create_group('G')
         hm = gen.write_usid(g, ds)
         if prior is not None and not inp['separate']:
-            procs.make_prior_group(g, 'main', 'RowProc', {'a': 1}, n, mask=mask, results=prior, source=hm)
+            procs.make_prior_group(g, 'main', 'RowProc', {'a': 1}, n, mask=None if inp.get('legacy') else mask,
+                                   last_pixel=sum(mask) if inp.get('legacy') else None, results=prior, source=hm)
     if inp['separate']:
         with h5py.File(tgt, 'w') as f:
             g = f.create_group('T')
             if prior is not None:
-                procs.make_prior_group(g, 'main', 'RowProc', {'a': 1}, n, mask=mask, results=prior)
+                procs.make_prior_group(g, 'main', 'RowProc', {'a': 1}, n, mask=None if inp.get('legacy') else mask,
+                                       last_pixel=sum(mask) if inp.get('legacy') else None, results=prior)
     with Machine(inp.get('logical', 16), 2 ** 33):
         f = h5py.File(src, 'r+')
         ft = h5py.File(tgt, 'r+') if inp['separate'] else None
@@ -108,7 +114,11 @@ def run_impl(inp, work):
                     again = {'same_group': grp2.name == grp.name, 'extra_calls': len(procs.read_log(log, m)) - calls_first}
                 else:
                     again = None
-            status = [int(x) for x in grp['completed_positions'][()]]
+            if 'completed_positions' in grp:
+                status = [int(x) for x in grp['completed_positions'][()]]
+            else:
+                # a COMPLETE legacy group is returned as it is: its completion is recorded by last_pixel == N
+                status = [1] * n if int(grp.attrs.get('last_pixel', -1)) == n else []
             results = [float(x) for x in grp['Results'][()]]
             main = f['G/main'][()]
             in_target = (grp.file.filename == (tgt if inp['separate'] else src))
@@ -185,8 +195,9 @@ def project(inp, obs):
 
 def distribution(cases, obs):
     d = {'multi_batch': 0, 'noncontiguous': 0, 'all_done': 0, 'separate_target': 0, 'lazy': 0, 'batch_ge_80_multicore': 0,
-         'fresh': 0}
+         'fresh': 0, 'legacy_prior': 0}
     for c, o in zip(cases, obs):
+        d['legacy_prior'] += bool(c.get('legacy'))
         pend = [i for i, s in enumerate(c['mask']) if s == 0]
         d['multi_batch'] += len(o['batches']) > 1
         d['noncontiguous'] += bool(pend) and pend != list(range(pend[0], pend[-1] + 1))
